@@ -255,6 +255,11 @@ void check_elem(std::string const &family, std::string const &inst, euniverse<T>
           if ((eq ? 1 : 0) + (lt ? 1 : 0) + (tl ? 1 : 0) != 1)
             vrt::fail(sig("lt_trichotomy"), vrt::fmt("a==b:%d a<b:%d b<a:%d (exactly one expected for totally ordered components): %s  vs  %s",
                                                      (int)eq, (int)lt, (int)tl, eshow(A).c_str(), eshow(B).c_str()));
+          if constexpr ((F & c17::LEX_INFO) != 0)
+          {
+            if (lt != ref_lt(A, B))
+              vrt::count("info:" + family + ":lt_lexicographic_elem:" + inst);
+          }
           if constexpr ((F & c17::LEX) != 0)
           {
             bool const want = ref_lt(A, B);
